@@ -43,6 +43,26 @@ CHECKS = {
    text="random IDL-biased text, token-level mutants of printed valid documents and nesting probes up to depth 64 parsed on a 2 MiB-stack thread inside a journaled child process; a panic or the child's death is a violation",
    note="nesting beyond 64 is outside the property and removed from generated inputs by construction",
    tech=PBT + " / grammar-aware mutation fuzzing; oracle: returns without panic, child process survives"),
+ "C02": dict(cat="exploration", engine="vcheck+gent",
+   text="pilota-build is run (child process per unit) on kitchen-sink and seed-generated Thrift documents in plain, keep_unknown_fields and split configurations, the output is type-checked and linked into a test binary; for every generated Message type schema-directed values are reference-encoded, decoded, sized, encoded and decoded again by the generated code under 4 protocols, sync and async, BytesMut and LinkedBytes, and compared with the reference semantics (IDL defaults filled in) through an independent reference decoder",
+   note="the Rust type of a declaration is located by name (plain identifier pool); values are observed only through the wire, never through Rust field names; units that fail to build are excluded (C14's subject)",
+   tech=PBT + "; generated-code pipeline, round-trip + differential oracle (reference codec and schema-level reference semantics)"),
+ "C08": dict(cat="exploration", engine="vcheck+gent",
+   text="values of the reader type with generated writer-side edits (unknown fields of any type at any struct/union node, removed, retyped, reordered fields, unknown enum numbers) are reference-encoded and decoded by the generated reader types; outcome compared with the schema-level projection (ignore unknown / mismatched, fill defaults, Err iff required field missing or union with 0 / >= 2 known variants), all protocols, sync and async",
+   note="known finding union-variant-wire-type-mismatch is excluded from the main stream by a model-level predicate and exercised in a child process",
+   tech=PBT + "; model-based oracle (projection onto the reader schema)"),
+ "C13": dict(cat="exploration", engine="vcheck+gent",
+   text="corpus built with keep_unknown_fields; unknown fields of every wire type inserted at generated positions of every struct/union node (top level, nested, container elements, unions, argument structs); decode + re-encode with the checked and unchecked binary codec; the reference decoder must recover every inserted field next to the known fields",
+   note="types named as method argument/return types are affected by the known finding arg-type-tail-swallow once all their known fields are present: excluded by a model-level predicate (counted) and exercised by a side stream",
+   tech=PBT + "; round-trip through a narrower reader, multiset comparison via the reference decoder"),
+ "C19": dict(cat="fault_enumeration", engine="vcheck+gent",
+   text="for every generated Thrift type, truncations and single-mark corruptions of reference encodings on which decode fails, sync and async, binary and compact; the failing call is repeated three times under a counting global allocator and must not leave a repeating growth of live bytes nor a reference to the input buffer",
+   note="per-thread allocation counters; known finding list-elem-leak classified by schema (types containing a list of heap-owning elements, sync decode) and counted; protobuf types are covered by the protobuf pipeline when present",
+   tech=PBT + " fault injection; invariant on allocator state (live bytes, buffer uniqueness)"),
+ "C20": dict(cat="exploration", engine="vcheck+gent",
+   text="for every generated struct/exception of the corpus (kitchen sink with defaults of every kind + generated documents) under 4 protocols: encode(T::default()) reference-decodes to the defaults evaluated from the IDL by the harness; decode(empty struct) equals T::default() whenever it succeeds",
+   note="enumerates all struct types of the corpus (exhaustive for the corpus, the corpus itself is generated); known finding struct-literal-default-ignores-member-defaults lives in a side document",
+   tech="generated corpus + independent default evaluator; differential oracle"),
 }
 ORDER = sorted(CHECKS)
 checks = []
@@ -61,12 +81,14 @@ for pid in ORDER:
     })
 m = {
  "version": 1,
- "setup_cmd": "cd harness && CARGO_NET_OFFLINE=true cargo build --offline -p vcheck -p vbuild",
+ "setup_cmd": "cd harness && CARGO_NET_OFFLINE=true cargo build --offline -p vcheck -p vbuild -p vgen",
  "hooks": {"guard": "--cfg pilota_verif",
            "enable": "no hooks are needed: every observation goes through public API, process status, the allocator or emitted files",
            "baseline_off_cmd": "cd /repo && cargo test --workspace --no-fail-fast --offline",
            "source_commits": [], "add_only": True},
- "engines": [{"name": "vcheck", "path": "harness/vcheck", "serves_properties": ORDER,
+ "engines": [{"name": "vcheck+gent", "path": "harness/vgen", "serves_properties": [k for k in ORDER if CHECKS[k].get("engine") == "vcheck+gent" or k in ("C04", "C09", "C11", "C12")],
+              "kind_free_text": "generated-code pipeline: corpus (harness/vcore: kitchen.rs, tgen.rs) -> pilota-build child per unit (harness/vbuild) -> rustc type-check -> test binary harness/gent linking the generated code with the value-level checks of harness/vgen; journaled worker restarts behind process deaths"},
+             {"name": "vcheck", "path": "harness/vcheck", "serves_properties": ORDER,
               "kind_free_text": "proptest TestRunner driven from a binary (seed = VERIF_SEED); reference codecs and models in harness/vcore; pilota-facing interpreters, scripted AsyncRead, executor and counting allocator in harness/vrt"}],
  "checks": checks,
  "not_applicable": [{"property_id": p['id'], "reason": "check not built yet (work in progress; planned check described in DESIGN.md section 5)"}
